@@ -605,6 +605,19 @@ fn text_spellings(v: &Val, canon_text: &str, canon: &[bool]) -> Vec<(String, Str
             }
         }
     }
+    // numbers just outside the type, with and without the type's suffix, are no values of it
+    if let Val::Int(x, t) = v {
+        if *x == t.max() || *x == t.min() || *x == 0 {
+            out.push(("max+1".into(), (t.max() + 1).to_string(), Expect::MustErr));
+            out.push(("max+1-suffixed".into(), format!("{}{}", t.max() + 1, t.name()), Expect::MustErr));
+            out.push(("min-1".into(), (t.min() - 1).to_string(), Expect::MustErr));
+            out.push(("min-1-suffixed".into(), format!("{}{}", t.min() - 1, t.name()), Expect::MustErr));
+            if t.signed() {
+                out.push(("far-below-min-suffixed".into(), format!("{}{}", 2 * t.min(), t.name()), Expect::MustErr));
+                out.push(("far-above-max-suffixed".into(), format!("{}{}", -2 * t.min(), t.name()), Expect::MustErr));
+            }
+        }
+    }
     // enum variants: a surplus field, fields given to a unit variant
     if let Val::Enum(_, _, payload) = v {
         match payload {
